@@ -312,7 +312,7 @@ def run(ck):
                   "delivers through <dest>.event(...) exactly once" if ok else
                   f"{len(d)} delivery call(s) through event()", fi, fi.node)
 
-    with ck.section('R11.6'):
+    with ck.section('R11.6', backed_by='FSM._ctx_event', prefix='fsm:FSM._ctx_event'):
         # ------------------------------------------------------------------ R11.6
         g0 = ck.cfg(ev.fid, 'M1')
         hs = [n for n in g0.nodes if n.kind == 'handler' and g0.pred[n.id]]
